@@ -30,5 +30,6 @@ func c04(c *Ctx) {
 	}
 	muxstate.First(c.P, r)
 	errflow.E5(c.P, r, apiCountFuncs)
+	errflow.E5b(c.P, r, apiCountFuncs)
 	r.Floor("A1", "writer functions analysed", r.Counters["writer_functions"], 20)
 }
